@@ -55,7 +55,13 @@ from pycardano.hash import DatumHash, ScriptDataHash, ScriptHash, VerificationKe
 from pycardano.key import ExtendedSigningKey, SigningKey, VerificationKey
 from pycardano.logging import log_state, logger
 from pycardano.metadata import AuxiliaryData
-from pycardano.nativescript import NativeScript, ScriptAll, ScriptAny, ScriptPubkey
+from pycardano.nativescript import (
+    NativeScript,
+    ScriptAll,
+    ScriptAny,
+    ScriptNofK,
+    ScriptPubkey,
+)
 from pycardano.plutus import (
     CostModels,
     Datum,
@@ -1006,7 +1012,7 @@ class TransactionBuilder:
             tmp = set()
             if isinstance(script, ScriptPubkey):
                 tmp.add(script.key_hash)
-            elif isinstance(script, (ScriptAll, ScriptAny)):
+            elif isinstance(script, (ScriptAll, ScriptAny, ScriptNofK)):
                 for s in script.native_scripts:
                     tmp.update(_dfs(s))
             return tmp
